@@ -1,9 +1,61 @@
 (* C15 - Nested buffers are self-contained and correctly aligned.
-   Only statements, each closed by [exact] of a lemma proved in Builder/*.v. *)
-From Flatcc.Format Require Import Schema Spec.
-From Flatcc.Builder Require Import EmitModel BuilderBasics.
+   Only statements, each closed by [exact] of a lemma proved in Format/SpecProofs.v and Builder/*.v.
+   The whole-build theorem for nested buffers (nested_self_contained, nested_aligned, parent_align_ge below) is NOT yet
+   proved; it is decided on every run by checks/c15.py (every nested vector of the implementation's output is extracted and
+   verified, read and decoded in isolation, with the address arithmetic checked).  What is proved here are the parts of the
+   argument that carry over: the format rule for nested buffers is a restriction to the vector (self containment is part of
+   well-formedness, Spec.dec_nested), it is stable under extension of the parent, and the vtable cache never hands out a
+   vtable outside the memory emitted so far. *)
+From Flatcc.Format Require Import Schema Spec SpecProofs.
+From Flatcc.Builder Require Import EmitModel VMem Objects Leaves OffVec TableLayout Table Buffer.
 Local Open Scope Z_scope.
 
-Theorem C15_le16_value : forall x, 0 <= x < 65536 -> x mod 256 + 256 * ((x / 256) mod 256) = x.
-Proof. exact le16_value. Qed.
-Print Assumptions C15_le16_value.
+(* A nested buffer that decodes inside its parent keeps decoding - in the memory restricted to its own vector - when the
+   parent grows or moves: nothing outside the vector is consulted. *)
+Theorem C15_nested_stable_partial : forall r r' m o m' o' ds R al t v,
+  rle r r' -> mle m o m' o' -> dec_nested r m o ds R al t = Some v -> dec_nested r' m' o' ds R al t = Some v.
+Proof. intros r r' m o m' o' ds R al t v Hr H. exact (dec_nested_mono r r' Hr m o m' o' H ds R al t v). Qed.
+Print Assumptions C15_nested_stable_partial.
+
+(* The vtable cache: whatever create_cached_vtable returns lies in the emitted memory, is 2-aligned and holds exactly the
+   requested vtable (a vtable of another buffer - different nest_id - is never returned: vcache_find compares nest_id). *)
+Theorem C15_cached_vtable_partial : forall st vt r es st1,
+  st_ok st -> ma_ok st -> cache_ok st -> 0 <= lenZ vt < 65536 -> lenZ vt mod 2 = 0 ->
+  create_cached_vtable st vt = Some (r, es, st1) -> small st1 ->
+  step st st1 /\ cache_ok st1 /\ min_align st1 = min_align st /\
+  mem_has (vmem st1) (r - 1) vt /\ (r - 1) mod 2 = 0 /\ e_start st1 <= r - 1 /\ r - 1 + lenZ vt <= e_end st1.
+Proof. exact cached_vtable_ok. Qed.
+Print Assumptions C15_cached_vtable_partial.
+
+(* The nested header (what end_buffer emits for a nested buffer: ubyte vector length taken from buffer_mark, root offset,
+   identifier, padding so that the vector DATA is aligned): given a root that is valid inside the nested buffer's own window
+   [emit_start, buffer_mark), the emitted vector (a) is a nested buffer of the parent - decoded in the memory restricted to the
+   vector, i.e. no reference leaves it -, (b) copied out decodes on its own as a buffer of the nested root type, (c) starts
+   at a virtual address that is a multiple of the nested buffer's alignment al = max(given alignment, 4, block alignment), and
+   the builder's min_align is raised to al (the parent's exit_frame keeps the maximum). One nesting step; the whole-build
+   induction that supplies the window-validity of the root is what remains. *)
+Theorem C15_nested_header_partial : forall n Sc st id b_align root align flags R v ref es st',
+  st_ok st -> ma_ok st -> pow2 align -> min_align st <= align ->
+  balign_ok b_align -> balign_ok (block_align st) -> in_u32 id ->
+  Z.land flags 1 <> 0 -> Z.land flags 2 = 0 ->
+  e_start st <= root < 0 -> e_start st <= buffer_mark st <= 0 ->
+  (forall o ds, org_ok st (lvl_align st) o ds ->
+     obj_holds n Sc (root_oty R) v (restrict (vmem st) (e_start st) (buffer_mark st)) o ds (root - o)) ->
+  create_buffer st id b_align root align flags = Some (ref, es, st') -> small st' ->
+  let al := min_align st' in
+  let nb := ref + 4 in
+  st_ok st' /\ e_start st' = ref /\ e_end st' = e_end st /\ pow2 al /\ 4 <= al /\ align <= al /\
+  nb mod al = 0 /\ ref mod 4 = 0 /\
+  (forall o ds al', org_ok st' al o ds ->
+     dec_nested (dec_table n Sc) (vmem st') o ds R al' (ref - o) = Some (VNested v)) /\
+  (forall ext, mem_has (vmem st') nb ext -> lenZ ext = buffer_mark st - nb ->
+     decode_root n Sc R false ext = Some v).
+Proof. exact create_buffer_nested. Qed.
+Print Assumptions C15_nested_header_partial.
+
+(* Full statements not yet proved (decided by checks/c15.py on every run):
+   nested_self_contained : wt_script with a nested value n at field f -> the bytes nb of the ubyte vector satisfy
+                           decode_root S_nested nb = Some n (plain) / as a size-prefixed buffer from the length field (with_size);
+   nested_aligned        : the nested start offset is a multiple of the largest alignment used inside nb;
+   parent_align_ge       : buffer_alignment parent >= that alignment;
+   no_shared_vtable      : every vtable reference of nb lies inside nb (nest_id keyed cache). *)
